@@ -33,7 +33,17 @@ int main()
     for (int k = 0; k < nfex; k++) for (int t = 0; t < ntarget; t++) FE0[k][t] = rng.dyadic(-4, 4, 2);
 
     Db* dbin = makeDb(X, ndim, Z, V, FE, {});
-    Db* dbout = makeDb(X0, ndim, {}, {}, FE0, {});
+    // one configuration out of four: block kriging on the cells of a small (unrotated) grid, 1-3 discretisation points per axis
+    bool block = (nfex == 0) && rng.coin(0.25);
+    VectorInt ndiscs;
+    Db* dbout = nullptr;
+    if (block)
+    {
+      VectorInt nx(ndim, 1); nx[0] = ntarget; VectorDouble dx(ndim), x0(ndim);
+      for (int d = 0; d < ndim; d++) { dx[d] = rng.dyadic(1, 3, 1); x0[d] = rng.dyadic(0, 6, 2) + 0.125; ndiscs.push_back((int)rng.range(1, 3)); }
+      dbout = DbGrid::create(nx, dx, x0);
+    }
+    else dbout = makeDb(X0, ndim, {}, {}, FE0, {});
     std::string mtext;
     Model* model = genModel(rng, ndim, nvar, order, nfex, mtext, st);
     if (dbin == nullptr || dbout == nullptr || model == nullptr) { delete dbin; delete dbout; delete model; continue; }
@@ -52,17 +62,26 @@ int main()
     if (pna > 0) st.hit("heterotopic");
     bool stationary = (order < 0);
     int ncol0 = dbout->getColumnNumber();
-    int err = kriging(dbin, dbout, model, neigh, EKrigOpt::POINT, true, true, stationary);
+    EKrigOpt calcul = block ? EKrigOpt::BLOCK : EKrigOpt::POINT;
+    if (block) st.hit("block_kriging");
+    int err = kriging(dbin, dbout, model, neigh, calcul, true, true, stationary, ndiscs);
     if (err == 0)
     {
       for (int t = 0; t < ntarget; t++)
       {
-        Krigtest_Res res = krigtest(dbin, dbout, model, neigh, t, EKrigOpt::POINT);
+        Krigtest_Res res = krigtest(dbin, dbout, model, neigh, t, calcul, ndiscs);
         if (res.nech <= 0) { st.hit("krigtest_empty"); continue; }
         std::vector<double> est(nvar), sd(nvar), vz;
         for (int a = 0; a < nvar; a++) { est[a] = dbout->getValueByColIdx(t, ncol0 + a); sd[a] = dbout->getValueByColIdx(t, ncol0 + nvar + a); }
         if (stationary) for (int a = 0; a < nvar; a++) vz.push_back(dbout->getValueByColIdx(t, ncol0 + 2 * nvar + a));
-        std::string req = krigRequest(dbin, dbout, model, t, res.nbgh, ndim, nvar, nfex, hasVerr);
+        VectorVectorDouble d1, d2;
+        if (block)
+        {
+          const DbGrid* g = dynamic_cast<const DbGrid*>(dbout);
+          d1 = g->getDiscretizedBlock(ndiscs, t, false, false);
+          d2 = g->getDiscretizedBlock(ndiscs, t, false, true, 1234546);      // the second discretisation is randomised with a fixed seed
+        }
+        std::string req = krigRequest(dbin, dbout, model, t, res.nbgh, ndim, nvar, nfex, hasVerr, block ? &d1 : nullptr, block ? &d2 : nullptr);
         std::vector<double> zam;
         for (int i = 0; i < res.zam.getNRows(); i++) zam.push_back(res.zam.getValue(i, 0));
         printf("k krig %s model=%s => nred=%d lhs=%s rhs=%s wgt=%s zam=%s est=%s std=%s%s%s\n", req.c_str(), mtext.c_str(),
